@@ -21,11 +21,15 @@ pub struct Case {
     /// handed the tree the real parser built — so that the comparison is end to end and a change
     /// in the parser or in macro expansion that alters behaviour is seen by every evaluation check
     pub from_source: bool,
+    /// source texts the implementation compiles (and discards) on the same thread immediately
+    /// before the case itself: the outcome of a compilation depends on its own text only, whatever
+    /// was compiled before (the model, being a function of the text, is not told)
+    pub prelude: Vec<String>,
 }
 
 impl Case {
     pub fn new(kind: &str, payload: String) -> Case {
-        Case { kind: kind.to_string(), payload, src: None, tags: vec![], from_source: false }
+        Case { kind: kind.to_string(), payload, src: None, tags: vec![], from_source: false, prelude: vec![] }
     }
     pub fn model_line(&self, id: usize) -> String {
         if self.from_source && self.kind == "eval" {
@@ -175,6 +179,10 @@ pub fn variables_supplied(case: &Case) -> Vec<String> {
 pub fn impl_answer(case: &Case) -> String {
     if std::env::var_os("CEL_INFLIGHT_DIR").is_some() {
         inflight_write("case", &corpus_line(case));
+    }
+    for p in &case.prelude {
+        note_input(&format!("compile (prelude) src={p:?}"));
+        let _ = quietly(|| catch_unwind(|| if p.len() % 2 == 0 { Program::compile(p).map(|_| ()) } else { Program::try_from(p.as_str()).map(|_| ()) }));
     }
     note_input(&format!("{} {}{}", case.kind, case.src.as_deref().map(|s| format!("src={s:?} ")).unwrap_or_default(), case.payload.chars().take(2000).collect::<String>()));
     let payload = parse_all(&case.payload);
